@@ -20,7 +20,8 @@ REWRITE_ALWAYS = {
 }
 # additional rewrites for scheduler-visible locks / tickers (C17b, C18, -race passes)
 REWRITE_SYNC = {
-    "pkg/dynamic/informer/informer.go": [("time", "metacontroller/pkg/internal/verif/vtime")],
+    "pkg/dynamic/informer/informer.go": [("time", "metacontroller/pkg/internal/verif/vtime"), ("sync", "metacontroller/pkg/internal/verif/vsync")],
+    "pkg/dynamic/informer/factory.go": [("sync", "metacontroller/pkg/internal/verif/vsync")],
 }
 
 
